@@ -1,0 +1,32 @@
+//go:build verif
+
+package basic
+
+// Contracts for the verification machinery in /verif (comment-only; build tag verif).
+
+// The outcome of the last password comparison (ghost).
+//@ ghost var pwMatched bool
+
+// C12: logins are folded to lower case before anything else looks at them, so uniqueness and look-up do not depend
+// on letter case; a login authenticates only if the record exists, has not expired and the password comparison
+// succeeded.
+//@ func parseSecret(bsecret []byte) (uname string, password string, err error)
+//@   modifies nothing
+//@   ensures [C12] folded: err == nil ==> uname == strings.ToLower(uname)
+
+//@ func (a *authenticator) Authenticate(secret []byte, remoteAddr string) (rec *auth.Rec, challenge []byte, err error)
+//@   requires [C12] a != nil
+//@   modifies inferred
+//@   ensures [C12] password_matched: err == nil ==> pwMatched && rec != nil && rec.Uid != types.ZeroUid
+//@   assert at call store.UsersPersistenceInterface.GetAuthUniqueRecord [C12] folded_lookup: $2 == strings.ToLower($2)
+//@   assert at call bcrypt.CompareHashAndPassword [C12] known_login: uid != types.ZeroUid
+
+//@ func (a *authenticator) IsUnique(secret []byte, remoteAddr string) (ok bool, err error)
+//@   requires [C12] a != nil
+//@   modifies inferred
+//@   assert at call store.UsersPersistenceInterface.GetAuthUniqueRecord [C12] folded_lookup: $2 == strings.ToLower($2)
+
+//@ func (a *authenticator) AddRecord(rec *auth.Rec, secret []byte, remoteAddr string) (res *auth.Rec, err error)
+//@   requires [C12] a != nil && rec != nil
+//@   modifies inferred
+//@   assert at call store.UsersPersistenceInterface.AddAuthRecord [C12] folded_login: $4 == strings.ToLower($4)
